@@ -4,7 +4,7 @@ import re
 
 from analysis import mir, order
 from analysis.facts import loc
-from analysis.interp import Interp, Policy, Sym, App, Const, Closure, Variant, Tup, show
+from analysis.interp import Interp, Policy, Sym, App, Const, Closure, Variant, Tup, Unknown, show
 
 LEVEL = "other"
 TECHNIQUE = "DECIDE: complete decision tables of the operator-match predicate and of the unary/binary disambiguation extracted by abstract interpretation and compared with the documented boolean functions; ORDER: direction/key of the operator-list sort feeding a first-match search; relation between the two identifier regexes"
@@ -357,6 +357,14 @@ def number_literal(chk, fb, RID="R13.6"):
     b = nt[0]
     where = loc(b["span"])
     ps = [p for p in Interp(fb, P()).run(b, [Sym("text")]) if p.status != "unreachable"]
+    loop_form = None
+    if any(p.status == "unrecognised" and "revisited" in (p.note or "") for p in ps):
+        # the prefix scan written as a loop over the characters with two counters
+        loop_form = _numeric_loop(fb, b)
+        if isinstance(loop_form, str):
+            chk.unrecognised(RID, "shape", "is_numeric_text: the scan loop is not `count the leading ASCII digits / dots, count the dots`: %s" % loop_form, where)
+            return
+        ps = loop_form["paths"]
     if any(p.status != "return" for p in ps):
         chk.unrecognised(RID, "shape", "is_numeric_text: %s" % [(p.status, p.note) for p in ps if p.status != "return"][:2], where)
         return
@@ -376,7 +384,10 @@ def number_literal(chk, fb, RID="R13.6"):
         some = isinstance(r, Variant) and r.variant == "Some"
         if some:
             pay = rel.cstr(r.fields.get("0"))
-            if not re.match(r"^std::ops::Index::index\(text, Range\{start: 0_usize, end: std::iter::Iterator::count\(std::iter::Iterator::take_while\(core::str::<impl str>::chars\(text\), closure<\{closure#\d+\}>\)\)\}\)$", pay):
+            if loop_form is not None:
+                if pay != "std::ops::Index::index(text, Range{start: 0_usize, end: %s})" % loop_form["N"]:
+                    bad = bad or ("the literal is not text[0..n]: %s" % pay[:140])
+            elif not re.match(r"^std::ops::Index::index\(text, Range\{start: 0_usize, end: std::iter::Iterator::count\(std::iter::Iterator::take_while\(core::str::<impl str>::chars\(text\), closure<\{closure#\d+\}>\)\)\}\)$", pay):
                 bad = bad or ("the literal is not text[0..n]: %s" % pay[:140])
         elif not (isinstance(r, Variant) and r.variant == "None"):
             bad = bad or ("result is %s" % show(r)[:80])
@@ -387,14 +398,21 @@ def number_literal(chk, fb, RID="R13.6"):
             if c is not None:
                 return c
             s = rel.cstr(t)
+            if loop_form is not None:
+                return n if s == loop_form["N"] else d if s == loop_form["D"] else None
             if s.startswith("std::iter::Iterator::count(std::iter::Iterator::take_while("):
                 return n
             if s.startswith("mut:std::iter::Iterator::take_while(0_"):
                 return d
             return None
-        for n, d in GRID:
+        grid_here = GRID
+        if loop_form is not None and id(p) in loop_form["concrete"]:
+            grid_here = [(0, 0)]        # the scan ended before any character was counted
+        for n, d in grid_here:
             sat = True
             for a, op, c in F.rel:
+                if loop_form is not None and ("Iterator::next(" in rel.cstr(a) or "Iterator::next(" in rel.cstr(c)):
+                    continue        # a decision about a single character inside the scan loop (judged with the loop)
                 x, y = val(a, n, d), val(c, n, d)
                 if x is None or y is None:
                     bad = bad or ("a decision compares an unrecognised quantity: %s %s %s" % (rel.cstr(a)[:60], op, rel.cstr(c)[:60]))
@@ -409,7 +427,9 @@ def number_literal(chk, fb, RID="R13.6"):
         bad = "decision table incomplete: %s not covered" % sorted(set(GRID) - covered)[:4]
     # the prefix predicate: digit or dot, dots counted
     okp = False
-    if pred is not None and pred.path in fb.bodies:
+    if loop_form is not None:
+        okp = True      # checked with the loop
+    elif pred is not None and pred.path in fb.bodies:
         env = Closure(pred.path, {k: Sym("DOTS") for k in pred.caps})
         qs = [q for q in Interp(fb, P()).run(fb.bodies[pred.path], [env, Sym("c")]) if q.status != "unreachable"]
         okp = bool(qs) and all(q.status == "return" for q in qs)
@@ -465,6 +485,102 @@ def number_literal(chk, fb, RID="R13.6"):
         chk.ok(RID, "NumberMatcher::is_literal = is_numeric_text", "", loc(nm[0]["span"]))
     else:
         chk.violation(RID, "matcher", "NumberMatcher::is_literal does not return is_numeric_text(text) unchanged: %s" % [show(q.result)[:100] if q.result is not None else q.status for q in qs][:3], loc(nm[0]["span"]))
+
+
+def _numeric_loop(fb, b):
+    """is_numeric_text with an explicit loop: `for c in text.chars() { if c == '.' { d += 1 } else if !c.is_ascii_digit() { break } n += 1 }`.
+    Every completed trip has counted a digit or a dot (n + 1; d + 1 exactly for a dot), every trip that leaves the loop saw neither;
+    both counters start at 0.  Returns {"paths", "N", "D", "concrete"} or a reason."""
+    from analysis import rel, loops
+
+    class PW(Policy):
+        loop_mode = "widen"
+        max_depth = 3
+
+        def inline(self, fn, args, interp, path):
+            return False
+
+        def inline_closure(self, cp, args, interp, path):
+            return False
+    allp = Interp(fb, PW()).run(b, [Sym("text")])
+    if any(p.status not in ("return", "loop-pruned", "unreachable") for p in allp):
+        return "shape"
+    H = it = None
+    init = {}
+    for p in allp:
+        for t in loops.trips(p, b["path"], 0):
+            if t.general:
+                continue
+            for k, v in t.pre.items():
+                if rel.cstr(v) in ("std::iter::IntoIterator::into_iter(core::str::<impl str>::chars(text))", "core::str::<impl str>::chars(text)"):
+                    H, it = t.header, k
+                    init = t.pre
+    if H is None:
+        return "no loop over text.chars()"
+    N = D = None
+    for p in allp:
+        for t in loops.trips(p, b["path"], 0):
+            if t.header != H or not t.general:
+                continue
+            X = rel.cstr(t.pre[it])
+            item = ".0(as:Some(std::iter::Iterator::next(%s)))" % X
+            isdot = isdig = None
+            ended = False
+            for d in t.decisions:
+                s = rel.cstr(d[1])
+                if s == "discr(std::iter::Iterator::next(%s))" % X:
+                    ended = d[2] == "None"
+                elif s in ("binop:Eq(%s, '.')" % item, "binop:Eq('.', %s)" % item):
+                    isdot = bool(d[2])
+                elif s == "std::char::methods::<impl char>::is_ascii_digit(%s)" % item:
+                    isdig = bool(d[2])
+                elif X in s or item in s:
+                    return "a step of the scan depends on %s" % s[:80]
+            if ended:
+                continue
+            counted = isdot is True or isdig is True
+            if t.post is None:
+                # leaves the loop inside the trip (break): the character is neither a digit nor a dot
+                if counted or isdot is None or isdig is None:
+                    return "the scan stops at a character that is a digit or a dot (or without looking at it)"
+                continue
+            if not counted:
+                return "a character that is neither a digit nor a dot is counted"
+            inc = [L for L, v in t.pre.items() if isinstance(v, Unknown) and L in t.post and rel.cstr(t.post[L]) in ("binop:Add(%s, 1_usize)" % rel.cstr(v), "binop:Add(%s, 1_i32)" % rel.cstr(v), "binop:Add(%s, 1_u32)" % rel.cstr(v))]
+            if isdot:
+                if len(inc) != 2:
+                    return "a dot does not increase both counters by one"
+            else:
+                if len(inc) != 1:
+                    return "a digit does not increase exactly the length counter"
+                N = rel.cstr(t.pre[inc[0]])
+                Nl = inc[0]
+            if isdot and N is not None:
+                other = [L for L in inc if rel.cstr(t.pre[L]) != N]
+                if len(other) == 1:
+                    D = rel.cstr(t.pre[other[0]])
+                    Dl = other[0]
+    if N is None or D is None:
+        # a second pass for the dot trips seen before the digit trip
+        for p in allp:
+            for t in loops.trips(p, b["path"], 0):
+                if t.header == H and t.general and t.post is not None and N is not None and D is None:
+                    inc = [L for L, v in t.pre.items() if isinstance(v, Unknown) and L in t.post and rel.cstr(t.post[L]).startswith("binop:Add(%s, 1_" % rel.cstr(v))]
+                    other = [L for L in inc if rel.cstr(t.pre[L]) != N]
+                    if len(inc) == 2 and len(other) == 1:
+                        D = rel.cstr(t.pre[other[0]])
+                        Dl = other[0]
+    if N is None or D is None:
+        return "length / dot counters not identified"
+    if rel.const_int(init.get(Nl)) != 0 or rel.const_int(init.get(Dl)) != 0:
+        return "the counters do not start at 0"
+    rets = [p for p in allp if p.status == "return"]
+    concrete = set()
+    for p in rets:
+        txt = " ".join(rel.cstr(d[1]) for d in p.decisions) + " " + rel.cstr(p.result)
+        if N not in txt and D not in txt:
+            concrete.add(id(p))
+    return {"paths": rets, "N": N, "D": D, "concrete": concrete}
 
 
 def boundary_helper(chk, fb, RID="R13.7"):
